@@ -26,6 +26,8 @@ func runC07(c *Ctx) {
 	c.checkModelSiblings()
 	c.checkWeightedAccumulation("weighted-accumulation")
 	L.Floor("weighted-accumulation", 12, "accumulations in the five counters and probaNt")
+	c.checkFullScan("full-scan", "distance/dna", "selectedSites")
+	L.Floor("full-scan", 2, "site loop and sequence loop of the gap-site selection")
 	L.Trusts("IEEE-754 comparison semantics: every ordered comparison with NaN is false, != is true")
 }
 
